@@ -475,8 +475,28 @@ func checkC07(c *HTTPCase) (*ev.Failure, string) {
 			}
 			if want == vDecodable && i < len(reqs) && reqs[i] != nil {
 				// invalid against the gateway's schema => errors and data:null
-				_, verrs := gqlparser.LoadQuery(schema, reqs[i].Query)
+				doc, verrs := gqlparser.LoadQuery(schema, reqs[i].Query)
 				m := r.(map[string]interface{})
+				if verrs == nil {
+					// a valid document from which no operation can be selected is a request error as well
+					// (an empty-string operationName is left open)
+					unselectable := ""
+					if on := reqs[i].OperationName; on != nil && *on != "" && doc.Operations.ForName(*on) == nil {
+						unselectable = "operationName " + *on + " names no operation of the document"
+					} else if on == nil && len(doc.Operations) != 1 {
+						unselectable = fmt.Sprintf("no operationName and %d operations in the document", len(doc.Operations))
+					}
+					if unselectable != "" {
+						class += ",unselectable-op"
+						if l, _ := m["errors"].([]interface{}); len(l) == 0 {
+							return ev.Failf("invalid-not-null:operation-selection", "%s, but the request is answered without errors: %s", unselectable, trunc(string(resp.Body), 300)), class
+						}
+						if d, has := m["data"]; !has || d != nil {
+							return ev.Failf("invalid-not-null:operation-selection", "%s, but the request is answered with data %v (want data: null)", unselectable, d), class
+						}
+						continue
+					}
+				}
 				if verrs != nil {
 					class += ",invalid-op"
 					if l, _ := m["errors"].([]interface{}); len(l) == 0 {
@@ -709,6 +729,9 @@ func genMultipart(t *rapid.T, validOps []string) ([]byte, string) {
 					p = "x." + p
 				case 3:
 					// no index at all
+				case 4:
+					// nothing but an index
+					p = strconv.Itoa(rapid.IntRange(0, maxInt(nops, 1)).Draw(t, "bareidx"))
 				default:
 					p = strconv.Itoa(rapid.IntRange(0, maxInt(nops-1, 0)).Draw(t, "idx")) + "." + p
 				}
@@ -802,11 +825,21 @@ func genHTTPCase(t *rapid.T) *HTTPCase {
 			q = strings.Replace(q, "{", "{ nopeField ", 1)
 		case 1:
 			q = rapid.SampledFrom([]string{"{ __typename }", "query { __typename __typename }", "{ __schema { queryType { name } } }",
-				"mutation { __typename }", "{ ...F } fragment F on Query { __typename }", "{ __schema { types { name } } " + strings.TrimPrefix(strings.TrimSpace(ops[0]), "{")}).Draw(t, "special")
+				"mutation { __typename }", "{ ...F } fragment F on Query { __typename }",
+				// documents without any operation
+				"# nothing", " ", "\n\t", ",,,", "fragment F on Query { __typename }", "# a\n# b\n", "{ __schema { types { name } } " + strings.TrimPrefix(strings.TrimSpace(ops[0]), "{")}).Draw(t, "special")
 		case 2:
 			q = string(mutateBytes(t, []byte(q)))
 		}
 		req := map[string]interface{}{"query": q}
+		switch rapid.IntRange(0, 9).Draw(t, "opname") {
+		case 0:
+			req["operationName"] = "NoSuchOperation"
+		case 1:
+			req["operationName"] = ""
+		case 2:
+			req["operationName"] = nil
+		}
 		if rapid.IntRange(0, 3).Draw(t, "asbatch") == 0 {
 			elems := []interface{}{req, map[string]interface{}{"query": ops[len(ops)-1]}}
 			if rapid.Bool().Draw(t, "withintro") {
